@@ -168,6 +168,12 @@ where
 		sl.state = SlateState::Invoice3;
 		sl.amount = 0;
 	} else if sl.state == SlateState::Standard2 {
+		// A Standard2 reply is finalized by the wallet that initiated the send. The context of
+		// an invoice this wallet merely paid (it carries the excess calculated while paying)
+		// is not such a context: the payer has signed already, the issuer finalizes.
+		if context.calculated_excess.is_some() {
+			return Err(Error::SlateState);
+		}
 		// The recipient of a standard send only ever contributes outputs. A reply
 		// carrying inputs would have us sign a transaction that spends coins this
 		// wallet never reserved (and need not pay the recipient at all).
